@@ -26,7 +26,7 @@ def floors(tier):
             'objects_evaluated_via_sympy': 2000, 'zero_tests_compared': 20000, 'reference_zero_functions_seen': 500,
             'equality_pairs_compared': 5000, 'equal_pairs_seen': 200, 'operand_snapshots_verified': 20000,
             'op_add': 3000, 'op_sub': 3000, 'op_mul': 3000, 'op_div': 2000, 'op_neg': 500, 'op_pow': 800, 'op_inv': 300,
-            'reflected_number_ops': 1500, 'codegen_cases': 300, 'codegen_coefficients_evaluated': 2000, 'identity_cases': 3000}
+            'reflected_number_ops': 1500, 'codegen_cases': 300, 'codegen_coefficients_evaluated': 2000, 'identity_cases': 3000, 'augmented_assignment_sequences': 500}
 
 
 def plan(tier, seed):
@@ -170,12 +170,36 @@ def build(ctx, rng, depth, trace, made):
     if depth == 0 or rng.random() < 0.15:
         v = rng.choice(VARS)
         return RationalPolynomial.fromname(v), r_var(v), v
-    kind = rng.choices(['add', 'sub', 'mul', 'div', 'neg', 'pow', 'inv', 'numL', 'numR'], [5, 5, 5, 3, 1, 1.5, 0.6, 2, 2])[0]
+    kind = rng.choices(['add', 'sub', 'mul', 'div', 'neg', 'pow', 'inv', 'numL', 'numR', 'iadd', 'imul'], [5, 5, 5, 3, 1, 1.5, 0.6, 2, 2, 1, 0.6])[0]
     x, rx, sx = build(ctx, rng, depth - 1, trace, made)
     snap_x = deep_snapshot(x)
     operands = [(x, snap_x, sx)]
     try:
-        if kind in ('add', 'sub', 'mul', 'div'):
+        if kind in ('iadd', 'imul'):
+            # accumulator idiom: acc = <identity or x>; acc op= y; acc op= z  -- the operands must stay what they were
+            y, ry, sy = build(ctx, rng, rng.randint(0, depth - 1), trace, made)
+            operands.append((y, deep_snapshot(y), sy))
+            start = rng.choice(('identity', 'x', 'x-times-one', 'plus-x'))
+            if kind == 'iadd':
+                acc = {'identity': 0, 'x': x, 'x-times-one': x * 1, 'plus-x': +x}[start]
+                racc = r_const(0) if start == 'identity' else rx
+                acc += y
+                racc = r_add(racc, ry)
+                acc += x
+                racc = r_add(racc, rx)
+                src = f'(acc={start}; acc += {sy}; acc += {sx})'
+            else:
+                acc = {'identity': 1, 'x': x, 'x-times-one': x * 1, 'plus-x': +x}[start]
+                racc = r_const(1) if start == 'identity' else rx
+                acc *= y
+                racc = r_mul(racc, ry)
+                acc *= x
+                racc = r_mul(racc, rx)
+                src = f'(acc={start}; acc *= {sy}; acc *= {sx})'
+            obj, ref = acc, racc
+            ctx.count('augmented_assignment_sequences')
+            kind = 'add' if kind == 'iadd' else 'mul'
+        elif kind in ('add', 'sub', 'mul', 'div'):
             y, ry, sy = build(ctx, rng, rng.randint(0, depth - 1), trace, made)
             operands.append((y, deep_snapshot(y), sy))
             if kind == 'add':
@@ -408,7 +432,7 @@ def identity_cases(ctx, rng, made, cid):
         except Exception as e:
             ctx.note_raised(e, 'identity-shift')
             return
-    which = rng.choice(('commute', 'distribute', 'associate', 'square', 'sub-self'))
+    which = rng.choice(('commute', 'distribute', 'associate', 'square', 'sub-self', 'power'))
     try:
         if which == 'commute':
             lhs, rhs, src = P * Q, Q * P, f'({sP})*({sQ}) - ({sQ})*({sP})'
@@ -422,6 +446,18 @@ def identity_cases(ctx, rng, made, cid):
         elif which == 'square':
             lhs, rhs, src = (P + Q) ** 2, P * P + 2 * (P * Q) + Q * Q, f'(({sP})+({sQ}))**2 - expansion'
             rl, rr = r_pow(r_add(rP, rQ), 2), r_add(r_add(r_mul(rP, rP), r_mul(r_const(2), r_mul(rP, rQ))), r_mul(rQ, rQ))
+        elif which == 'power':
+            n_ = rng.choice((2, 3, -2))
+            M = P * Q
+            rM = r_mul(rP, rQ)
+            lhs = M ** n_
+            rhs = M * M if abs(n_) == 2 else M * M * M
+            rr = r_pow(rM, abs(n_))
+            if n_ < 0:
+                rhs = 1 / rhs
+                rr = r_inv(rr)
+            rl = r_pow(rM, n_)
+            src = f'(({sP})*({sQ}))**{n_} - repeated product'
         else:
             lhs, rhs, src = P + Q, Q + P, f'(({sP})+({sQ})) - (({sQ})+({sP}))'
             rl, rr = r_add(rP, rQ), r_add(rQ, rP)
